@@ -652,6 +652,31 @@ def rule_r8(repo, run):
     import_rules(run, R, c02, repo, {"C02.R15"}, only=lambda c: "result-indirection" in c)
 
 
+
+def rule_r9(repo, run):
+    R = run.rule("C10.R9", "the body of a C wrapper is put together as pre_call - call - post_call (copy the result text out of "
+                           "the C++ object) - final (the user's clean-up, which may delete that object) - return")
+    wc = repo.module("wrapc")
+    fn = wc.func("Wrapc.wrap_function")
+    ORDER = ["pre_call", "call_code", "post_call_pattern", "post_call", "final_code", "return_code"]
+    sums = [a for a in ast.walk(fn) if isinstance(a, ast.Assign) and pyflow.is_name(a.targets[0], "C_code") and isinstance(a.value, ast.BinOp)]
+    if len(sums) != 1:
+        raise AnalysisError("C10.R9: the assembly `C_code = pre_call + ...` of Wrapc.wrap_function was not found")
+
+    def flat(e):
+        if isinstance(e, ast.BinOp) and isinstance(e.op, ast.Add):
+            return flat(e.left) + flat(e.right)
+        return [ast.unparse(e)]
+    got = flat(sums[0].value)
+    missing = [k for k in ORDER if k not in got]
+    if missing:
+        raise AnalysisError("C10.R9: %s no longer part of `C_code = ...`" % missing)
+    seq = [g for g in got if g in ORDER]
+    run.check(R, "wrapc.Wrapc.wrap_function:C_code-order", seq == ORDER,
+              "the wrapper body is assembled as %s: with `final` in front of `post_call` a `+len` / bufferify result is copied out "
+              "of an object the user's final clause already released" % " + ".join(got), wc.loc(sums[0]))
+
+
 def run(repo, run, tier):
     tables.check_model_assumptions(repo)
     helpers = tables.build_helper_table(repo)
@@ -664,6 +689,7 @@ def run(repo, run, tier):
     rule_r6(repo, run, table)
     rule_r7(repo, run, table)
     rule_r8(repo, run)
+    rule_r9(repo, run)
     run.assumptions.extend([
         "clang 14 as parser only (-fsyntax-only, JSON AST); helper contracts (what callers guarantee) are "
         "the table CONTRACTS in checks/c10.py, discharged at the call sites by C10.R2",
